@@ -37,7 +37,24 @@ def gen_clause(rng, names, depth):
     return " | ".join(groups)
 
 
+TAG_ATOMS = ["@home", "#work", "+proj", "%bob", "'foo'", "due:*", "!@home", "!#work", "!due:*", "f=work", "!'foo'"]
+
+
+def gen_diamond(rng):
+    """A shared building block with alternatives reached through two separate references (kind/priority-free, so
+    the known pooling of an unparenthesised splice cannot interfere)."""
+    a = lambda: rng.choice(TAG_ATOMS)
+    saved = {"alt": "# W %s | %s\n" % (a(), " ".join(a() for _ in range(rng.randint(1, 2)))),
+             "left": "# W %s\n" % rng.choice(["%s {alt}" % a(), "{alt} %s" % a(), "{alt}"]),
+             "right": "# S note W %s O priority\n" % rng.choice(["%s {alt}" % a(), "{alt} %s" % a()]),
+             "top": "# W {left} {right}\n"}
+    body = rng.choice(["{left} {right}", "{right} {left}", "{top}", "{alt} {left}", "%s {left} {right}" % a(), "{top} %s" % a()])
+    return {"saved": saved, "q": "S note W %s O none G none" % body}
+
+
 def gen_case(rng):
+    if rng.random() < 0.15:
+        return gen_diamond(rng)
     n = rng.randint(1, 4)
     names = rng.sample(["q", "todo", "work/open", "a", "b_1", "deep", "proj", "proj.done", "v1.2"], n)
     saved = {}
@@ -199,7 +216,10 @@ def run(oc, tier, seed):
         Z.db_create(d)
         for f in sorted(glob.glob(os.path.join(lib.VERIF, "corpus", "C15", "*.json"))):
             check_case(eng, d, json.load(open(f)), oc)
-        for i in range(n):
+        search = 200
+        for i in range(n + 200):
+            if i >= n and not oc.corr_mismatch:
+                break
             case = gen_case(rng)
             ok = check_case(eng, d, case, oc)
             if any("|" in v.split("\n")[0] or "{" in v for v in case["saved"].values()):
@@ -207,7 +227,13 @@ def run(oc, tier, seed):
             if i < 3:
                 oc.samples.append(case)
             if not ok:
-                break
+                # a spec failure is the replay; after a mere model/implementation difference keep searching
+                # (bounded) for a query on which the property itself fails
+                if any(f[3] is None for f in oc.spec_fail):
+                    break
+                search -= 1
+                if search <= 0:
+                    break
     eng.close()
 
 
